@@ -39,7 +39,7 @@ def prof_tokens(period, pts):
     return "%s %s" % (fx(period), ",".join("%s:%s" % (fx(t), fx(v)) for t, v in pts))
 
 
-def gen_scenario(rng, klass=None, ti_ok=False, profiles=True):
+def gen_scenario(rng, klass=None, ti_ok=False, profiles=True, no_io=False):
     """klass: equal | execs | comms | ios | mixed | boundary"""
     klass = klass or rng.choice(["equal", "execs", "execs", "comms", "comms", "ios", "mixed", "mixed", "boundary"])
     sc = {"plat": [], "ops": [], "acts": {}, "fat": [], "eq": None, "klass": klass, "feats": set(), "caps": {}}
@@ -72,7 +72,7 @@ def gen_scenario(rng, klass=None, ti_ok=False, profiles=True):
                 ls = list(range(nl))
                 rng.shuffle(ls)
                 routes[(a, b)] = ["l%d" % x for x in sorted(ls[:k])]
-    if klass in ("ios", "mixed"):
+    if klass in ("ios", "mixed") and not no_io:
         nd = rng.range(1, 2)
         for i in range(nd):
             disks.append({"host": "h%d" % rng.below(nh), "name": "d%d" % i, "r": rng.choice(DBW), "w": rng.choice(DBW)})
